@@ -151,6 +151,24 @@ Theorem type_from_json_numeric :
     exists d : Decimal.uint, NilZero.uint_of_string s = Some d /\ N.of_uint d = t /\ (t < 2 ^ 64)%N.
 Proof. exact (@type_from_json_numeric_l). Qed.
 
+Theorem type_json_roundtrip_al :
+    forall (reg : list (N * string)) (al : list (string * N)) (min_user unreg t : N),
+    reg_ok reg = true ->
+    aliases_ok reg al = true ->
+    (t < 2 ^ 64)%N -> type_from_json_al reg al unreg (type_to_json reg min_user t) = t.
+Proof. exact (@type_json_roundtrip_al_l). Qed.
+
+Theorem aliases_ok_facts :
+    aliases_ok all_reg json_aliases = true.
+Proof. exact (@aliases_ok_facts_l). Qed.
+
+Theorem type_json_roundtrip_al_facts :
+    forall t : N,
+    (t < 2 ^ 64)%N ->
+    type_from_json_al all_reg json_aliases f_cav_unregistered
+    (type_to_json all_reg f_cav_min_user_defined t) = t.
+Proof. exact (@type_json_roundtrip_al_facts_l). Qed.
+
 Print Assumptions enc_rs_n_perm_invariant.
 Print Assumptions enc_rs_s_perm_invariant.
 Print Assumptions enc_body_rs_perm.
@@ -175,3 +193,6 @@ Print Assumptions type_json_roundtrip.
 Print Assumptions facts_reg_ok.
 Print Assumptions type_json_roundtrip_facts.
 Print Assumptions type_from_json_numeric.
+Print Assumptions type_json_roundtrip_al.
+Print Assumptions aliases_ok_facts.
+Print Assumptions type_json_roundtrip_al_facts.
